@@ -9,6 +9,7 @@ import (
 	"go/types"
 	"path/filepath"
 	"strconv"
+	"strings"
 )
 
 // conc.go extracts, for the functions C18 is anchored in, the ordered skeleton of their
@@ -38,6 +39,47 @@ var concFns = []concFn{
 	{"wallet/wallet.go", "SingleAddressWallet", "Close"},
 }
 
+// The unexported methods that exist in the anchored files at the pinned commits.  A call of an
+// unexported method of the same receiver that is NOT in this set is a helper that a later
+// refactoring extracted from an anchored function: its body is inlined into the skeleton (with the
+// helper's receiver renamed to the caller's), so that a behaviour-preserving extraction does not
+// change the facts.  Calls of the known methods stay calls.
+var concKnown = map[string]bool{
+	"Syncer.firstRelay": true, "Syncer.resync": true, "Syncer.ban": true, "Syncer.addPeer": true,
+	"Syncer.subnetKey": true, "Syncer.acquireInflight": true, "Syncer.releaseInflight": true,
+	"Syncer.runPeer": true, "Syncer.withPeers": true, "Syncer.relayV2Header": true,
+	"Syncer.relayV2BlockOutline": true, "Syncer.relayV2TransactionSet": true, "Syncer.allowConnect": true,
+	"Syncer.alreadyConnected": true, "Syncer.acceptLoop": true, "Syncer.peerLoop": true, "Syncer.syncLoop": true,
+	"Syncer.parallelSync": true, "Syncer.handleRPC": true, "Syncer.verifID": true, "Syncer.verifSub": true, "Syncer.verifPeers": true,
+	"Server.lockContractForRevision": true, "Server.handleHostStream": true,
+	"SingleAddressWallet.selectUTXOs": true, "SingleAddressWallet.cleanLockedUTXOs": true,
+	"SingleAddressWallet.lockUTXOs": true, "SingleAddressWallet.selectRedistributeUTXOs": true,
+	"SingleAddressWallet.isLocked": true, "SingleAddressWallet.rebroadcastTransactions": true,
+}
+
+// concHelpers: unexported methods of recv declared in f that are not known.
+func concHelpers(f *ast.File, recv string) map[string]*ast.FuncDecl {
+	out := map[string]*ast.FuncDecl{}
+	for _, d := range f.Decls {
+		fd, ok := d.(*ast.FuncDecl)
+		if !ok || fd.Body == nil || ast.IsExported(fd.Name.Name) || recvName(fd) != recv {
+			continue
+		}
+		if concKnown[recv+"."+fd.Name.Name] || strings.HasPrefix(fd.Name.Name, "handleRPC") || strings.HasPrefix(fd.Name.Name, "verif") {
+			continue
+		}
+		out[fd.Name.Name] = fd
+	}
+	return out
+}
+
+func recvVar(fd *ast.FuncDecl) string {
+	if fd.Recv == nil || len(fd.Recv.List) == 0 || len(fd.Recv.List[0].Names) == 0 {
+		return ""
+	}
+	return fd.Recv.List[0].Names[0].Name
+}
+
 func recvName(fd *ast.FuncDecl) string {
 	if fd.Recv == nil || len(fd.Recv.List) == 0 {
 		return ""
@@ -52,8 +94,13 @@ func recvName(fd *ast.FuncDecl) string {
 	return ""
 }
 
-// skeleton flattens a function body into tokens, in source order.
-func skeleton(body *ast.BlockStmt) []string {
+// skeleton flattens a function body into tokens, in source order.  self is the name of the
+// function's receiver variable, helpers the extracted helpers that are inlined (see concKnown).
+func skeleton(body *ast.BlockStmt, self string, helpers map[string]*ast.FuncDecl) []string {
+	return skeletonDepth(body, self, helpers, 0)
+}
+
+func skeletonDepth(body *ast.BlockStmt, self string, helpers map[string]*ast.FuncDecl, depth int) []string {
 	var toks []string
 	var walk func(n ast.Node)
 	walkAll := func(ns ...ast.Node) {
@@ -76,6 +123,27 @@ func skeleton(body *ast.BlockStmt) []string {
 		if (fun == "close" || fun == "delete") && len(c.Args) > 0 {
 			toks = append(toks, prefix+fun+" "+types.ExprString(c.Args[0]))
 			return
+		}
+		// an extracted helper of the same receiver: its skeleton in place of the call
+		if sel, ok := c.Fun.(*ast.SelectorExpr); ok && prefix == "" && depth < 3 {
+			if id, ok := sel.X.(*ast.Ident); ok && id.Name == self {
+				if h := helpers[sel.Sel.Name]; h != nil {
+					hv := recvVar(h)
+					for _, t := range skeletonDepth(h.Body, hv, helpers, depth+1) {
+						if t == "return" {
+							continue // the helper's return is not a return of the caller
+						}
+						if hv != "" && hv != self {
+							t = renameRecv(t, hv, self)
+						}
+						toks = append(toks, t)
+					}
+					for _, a := range c.Args {
+						walk(a)
+					}
+					return
+				}
+			}
 		}
 		if _, ok := c.Fun.(*ast.FuncLit); !ok {
 			toks = append(toks, prefix+"call "+fun)
@@ -200,6 +268,25 @@ func skeleton(body *ast.BlockStmt) []string {
 	return toks
 }
 
+// renameRecv replaces the identifier `from` (followed by a dot) by `to` in a token.
+func renameRecv(tok, from, to string) string {
+	var b strings.Builder
+	for i := 0; i < len(tok); {
+		if strings.HasPrefix(tok[i:], from+".") && (i == 0 || !isIdentByte(tok[i-1])) {
+			b.WriteString(to + ".")
+			i += len(from) + 1
+			continue
+		}
+		b.WriteByte(tok[i])
+		i++
+	}
+	return b.String()
+}
+
+func isIdentByte(c byte) bool {
+	return c == '_' || c >= '0' && c <= '9' || c >= 'a' && c <= 'z' || c >= 'A' && c <= 'Z'
+}
+
 func genConcFacts(repo string) ([]byte, error) {
 	parsed := map[string]*ast.File{}
 	fset := token.NewFileSet()
@@ -225,7 +312,7 @@ func genConcFacts(repo string) ([]byte, error) {
 			if !ok || fd.Name.Name != fn.name || recvName(fd) != fn.recv || fd.Body == nil {
 				continue
 			}
-			toks = skeleton(fd.Body)
+			toks = skeleton(fd.Body, recvVar(fd), concHelpers(f, fn.recv))
 			found = true
 		}
 		if !found {
@@ -278,6 +365,15 @@ def before (f a b : String) : Bool :=
 
 def has (f a : String) : Bool := (toks f).contains a
 
+/-- every occurrence of ` + "`a`" + ` in ` + "`f`" + ` is directly preceded by ` + "`b`" + `, and ` + "`a`" + ` occurs -/
+def precededByL (a b : String) : List String → Bool
+  | x :: y :: rest => (y != a || x == b) && precededByL a b (y :: rest)
+  | _ => true
+
+def precededBy (f a b : String) : Bool :=
+  let l := toks f
+  l.contains a && l.head? != some a && precededByL a b l
+
 /-- in the part of ` + "`f`" + ` that starts at the first ` + "`start`" + `: ` + "`a`" + ` occurs, and before the first ` + "`b`" + ` -/
 def beforeFrom (f start a b : String) : Bool :=
   let l := (toks f).dropWhile (· ≠ start)
@@ -297,7 +393,7 @@ theorem tg_stop_close_locked : under "ThreadGroup.Stop" "call tg.mu.Lock" "call 
 /-- the Stop hook is recorded BEFORE the closed channel becomes observable (channel readers are
 not serialised by tg.mu; recorded order must not show an observer of the close before the close) -/
 theorem tg_stop_hook_before_close :
-    beforeFrom "ThreadGroup.Stop" "default" "event tg.stop" "close tg.closed" = true := by decide
+    precededBy "ThreadGroup.Stop" "close tg.closed" "event tg.stop" = true := by decide
 theorem tg_stop_waits_unlocked :
     (before "ThreadGroup.Stop" "call tg.mu.Unlock" "call tg.wg.Wait" &&
      before "ThreadGroup.Stop" "call tg.wg.Wait" "event tg.stopped") = true := by decide
